@@ -1048,11 +1048,37 @@ pub mod miri_scenario {
         // tables; "all-codon" / "all-amino" = three or four threads start on the SAME path, so
         // they reach the same check-then-act window of the initialisation protocol almost in
         // lock-step (what a multi-party race on one cell needs)
-        let scenario = match rng.below(4) {
+        let scenario = match rng.below(5) {
             0 | 1 => "mixed",
             2 => "all-codon",
-            _ => "all-amino",
+            3 => "all-amino",
+            // "steady": the tables are already warm (the first thread's plan starts with a marker
+            // the scenario runner executes before spawning anybody); then every thread translates
+            // a few codons drawn from one small pool of codons with exact answers, so threads keep
+            // asking for what another thread has just asked — for state shared between calls
+            // (memo cells, seqlock-style caches) rather than between first calls
+            _ => "steady",
         };
+        if scenario == "steady" {
+            let max_t = MAX_THREADS.load(Ordering::Relaxed).max(4);
+            let t_full = 2 + rng.below(max_t - 1);
+            let pool: Vec<String> = (0..rng.range(2, 4)).map(|_| exact_codon(&mut rng)).collect();
+            let mut plans = Vec::new();
+            for _ in 0..max_t {
+                let mut ops = Vec::new();
+                for _ in 0..rng.range(2, 5) {
+                    ops.push(if rng.chance(5, 6) {
+                        Op::Amino { codon: rng.pick(&pool).clone(), pres: straddling_pres(&mut rng) }
+                    } else {
+                        codon_op(&mut rng)
+                    });
+                }
+                ops.truncate(ops_override.unwrap_or(5).max(1).min(5));
+                plans.push(ThreadPlan { role: "steady", ops });
+            }
+            plans.truncate(threads_override.unwrap_or(t_full).max(1).min(max_t));
+            return plans;
+        }
         let mut plans = Vec::new();
         if scenario == "mixed" {
             let t_full = 2 + rng.below(2);
@@ -1130,6 +1156,11 @@ pub mod miri_scenario {
         for (i, p) in plans.iter().enumerate() {
             let d: Vec<String> = p.ops.iter().map(Op::describe).collect();
             println!("SIM-PLAN t{i} role={} ops=[{}]", p.role, d.join("; "));
+        }
+        if plans.iter().any(|p| p.role == "steady") {
+            // warm both tables before anybody is spawned
+            let _ = execute(&Op::Codon { amino: "M".to_string() });
+            let _ = execute(&Op::Amino { codon: "ATG".to_string(), pres: Pres::plain() });
         }
         let mut handles = Vec::new();
         for (ti, p) in plans.iter().enumerate() {
